@@ -13,7 +13,7 @@ EXPLANATION = (
     'another map) or the function must merely forward the iterator to its caller (documented "arbitrary order" API); anything '
     'else, or anything unrecognised, is a violation. R11.b: no library function calls a clock, rand, thread identity, the '
     'environment, a pointer-to-integer cast or fmt::Pointer. R11.c: hand-written PartialEq impls read every field of the type '
-    '(or the field is tabled). R11.d: the only interior-mutable statics are the timer counter and the cleared-timer set. '
+    '(or the field is tabled). R11.e: a hand-written equality consumes a header\'s HeaderValues only as a whole list (never its first / last value). R11.d: the only interior-mutable statics are the timer counter and the cleared-timer set. '
     'Does not decide byte-identical replays nor determinism inside url/serde_json/http_types.')
 
 RUNTIME_CRATES = ['crux_core', 'crux_http', 'crux_kv', 'crux_time', 'crux_platform']
@@ -301,11 +301,16 @@ EQ_FIELD_EXCEPTIONS = {
 }
 
 
+# operations that consume a HeaderValues as a whole list
+HEADER_VALUES_WHOLE = {'iter', 'into_iter', 'eq', 'ne', 'len', 'clone', 'to_vec', 'cmp', 'partial_cmp', 'hash'}
+
+
 def check(ctx, rep):
     rep.rule('R11.a', 'hash-ordered iteration never reaches an order-sensitive consumer', floor=8)
     rep.rule('R11.b', 'no library function of the runtime crates consults a clock, rand, thread identity, env or addresses', floor=5)
     rep.rule('R11.c', 'hand-written PartialEq/Hash impls read every field of the type (or the field is tabled)', floor=3)
     rep.rule('R11.d', 'interior-mutable statics are exactly the tabled ones', floor=2)
+    rep.rule('R11.e', 'hand-written equality over header maps compares every value of every header', floor=1)
     cfgs = ['default'] + (['allfeat'] if ctx.has('allfeat') else [])
     for cfg in cfgs:
         crates = []
@@ -374,6 +379,32 @@ def check(ctx, rep):
                     else:
                         rep.bad('R11.c', key, 'hand-written %s for %s never reads field `%s`' % (
                             meth, norm(i['self_adt']), fld['name']), site=key + '@' + cfg)
+            # R11.e: a hand-written equality that looks at header maps compares every value of a header: a HeaderValues is consumed
+            # only as a whole (iter / == / len), never through its Deref to the first value, `last`, `get` or an index
+            for i in c.impls:
+                if i['derived'] or not i['self_adt'] or not path_matches(i['trait'], 'core::cmp::PartialEq'):
+                    continue
+                fns = [f for f in c.built if f.assoc.get('impl') == i['path'] and f.name in ('eq', 'ne')]
+                bodies = list(fns)
+                for f in fns:
+                    bodies += c.closures_of(f)
+                touched = False
+                partial = []
+                for f in bodies:
+                    for bb, t in f.calls():
+                        a0 = (t['args'][0].get('t') or '') if t.get('args') else ''
+                        tys = [a0, t.get('cself') or '', t.get('rself') or '']
+                        if not any(re.match(r"^(&(mut )?('\w+ )?)*[\w:]*header_values::HeaderValues$", x) for x in tys):
+                            continue
+                        touched = True
+                        what = last_seg(t.get('callee') or '?')
+                        if what not in HEADER_VALUES_WHOLE:
+                            partial.append((f, bb, norm(t.get('callee') or '?')))
+                if touched:
+                    key = '%s|%s|all-header-values' % (norm(i['self_adt']), norm(i['trait_full'] or i['trait']))
+                    rep.expect('R11.e', not partial, key, 'HeaderValues are compared as whole lists (iter / ==)',
+                               'hand-written equality of %s looks at only part of a header\'s values (%s): values that differ elsewhere compare equal'
+                               % (norm(i['self_adt']), ', '.join('%s at %s' % (w, f.where(bb)) for f, bb, w in partial)), site=key + '@' + cfg)
             # R11.d
             for s in c.statics:
                 if s['freeze'] and not s['mutable']:
